@@ -446,4 +446,75 @@ Proof.
     apply (build_core w' (lst + 1) 0 Vs _ Hlast Hw' ltac:(lia) Hb (ord_of_sorted_le Vs Hs) Hfit Hinv).
 Qed.
 
+(* ---- try_set never panics: a value out of order or outside the universe is reported as Err *)
+
+Definition good_prefix (n inc : N) (Vs : list N) (k : N) : Prop :=
+  (forall i, i < k -> nthd Vs i < n) /\ (forall j, 0 < j -> j < k -> nthd Vs (j - 1) + inc <= nthd Vs j).
+
+Lemma try_all_total n w inc Vs : n < 2 ^ 64 -> 1 <= w <= 63 -> inc <= 1 ->
+  lenN Vs + buckets_of n w < 2 ^ 64 ->
+  forall xs k b, b_inv n w inc Vs R k b -> good_prefix n inc Vs k -> k + lenN xs = lenN Vs ->
+  (forall i, i < lenN xs -> nthd xs i = nthd Vs (k + i)) ->
+  exists r, sb_try_set_all md b xs = Ok r /\
+    match r with inl b' => b_inv n w inc Vs R (lenN Vs) b' /\ good_prefix n inc Vs (lenN Vs) | inr _ => True end.
+Proof.
+  intros Hn Hw Hinc Hfit xs. induction xs as [|x t IH]; intros k b Hb Hg Hlen Hxs.
+  - change (lenN (@nil N)) with 0 in Hlen. exists (inl b). split; [reflexivity|]. replace (lenN Vs) with k by lia. split; assumption.
+  - rewrite lenN_cons in *. cbn [sb_try_set_all].
+    assert (Hx : x = nthd Vs k). { specialize (Hxs 0 ltac:(lia)). rewrite nthd_cons in Hxs. replace (k + 0) with k in Hxs by lia. exact Hxs. }
+    subst x.
+    (* the three tests of try_set *)
+    destruct Hb as [Hu [Hl [Hi [Hnx Hrest]]]].
+    destruct Hrest as [[L [HR [HLm HL]]] Hhigh']. destruct (Rget _ _ _ HR) as [Hilen [Hiw _]].
+    assert (Hb : b_inv n w inc Vs R k b).
+    { unfold b_inv. split; [exact Hu|]. split; [exact Hl|]. split; [exact Hi|]. split; [exact Hnx|]. split; [exists L; auto|exact Hhigh']. }
+    destruct (N.ltb_spec (nthd Vs k) (b_next b)) as [Hlow|Hok1].
+    { exists (inr ERR_ORDER). split; [|exact I]. unfold sb_try_set. rewrite Hl, Hilen, HLm.
+      replace (k =? lenN Vs) with false by lia. replace (nthd Vs k <? b_next b) with true by lia. reflexivity. }
+    destruct (N.leb_spec n (nthd Vs k)) as [Hbig|Hok2].
+    { exists (inr ERR_UNIVERSE). split; [|exact I]. unfold sb_try_set. rewrite Hl, Hilen, HLm, Hu.
+      replace (k =? lenN Vs) with false by lia. replace (nthd Vs k <? b_next b) with false by lia.
+      replace (n <=? nthd Vs k) with true by lia. reflexivity. }
+    assert (Hg' : good_prefix n inc Vs (k + 1)).
+    { destruct Hg as [Hg1 Hg2]. split.
+      - intros i Hik. destruct (N.eq_dec i k) as [->|]; [exact Hok2|apply Hg1; lia].
+      - intros j Hj0 Hjk. destruct (N.eq_dec j k) as [->|]; [|apply Hg2; lia].
+        rewrite Hnx in Hok1. replace (k =? 0) with false in Hok1 by lia. exact Hok1. }
+    destruct Hg' as [Hg1' Hg2'].
+    destruct (b_step md n w inc Vs R Rset Rget Hn Hw (k + 1) ltac:(lia) Hg1' Hinc Hg2' Hfit k b Hb ltac:(lia)) as [b' [Hs Hb']].
+    rewrite Hs. cbn [bind]. apply (IH (k + 1) b' Hb'); [split; assumption|lia|].
+    intros i Hi'. specialize (Hxs (i + 1) ltac:(lia)).
+    rewrite nthd_cons in Hxs. replace (i + 1 =? 0) with false in Hxs by lia. replace (i + 1 - 1) with i in Hxs by lia.
+    rewrite Hxs. f_equal. lia.
+Qed.
+
+Theorem try_from_iter_rejects w' Vs : 1 <= w' <= 63 -> nondecreasing Vs = false ->
+  (forall v, last_opt Vs = Some v -> v + 1 < 2 ^ 64) ->
+  let n := match last_opt Vs with Some v => v + 1 | None => 0 end in
+  lenN Vs + buckets_of n (eff_width w' n (lenN Vs)) < 2 ^ 64 ->
+  exists e, sv_try_from_iter sp md w' Vs = Ok (inr e).
+Proof.
+  intros Hw' Hnd Hlast n Hfit.
+  assert (Hne : Vs <> []) by (intros ->; discriminate).
+  destruct (exists_last Hne) as [pre [lst Heq]].
+  assert (Hlo : last_opt Vs = Some lst) by (unfold last_opt; rewrite Heq, rev_unit; reflexivity).
+  subst n. rewrite Hlo in *. specialize (Hlast lst eq_refl).
+  pose proof (eff_width_range w' (lst + 1) (lenN Vs) Hw') as Hw.
+  destruct (init_ok w' (lst + 1) 0 Vs Hlast Hw' Hfit) as [low [high [Hgp [Hiv [Hraw Hinv]]]]].
+  replace (sv_try_from_iter sp md w' Vs) with (sv_try_from_iter sp md w' (pre ++ [lst])) by (rewrite <- Heq; reflexivity).
+  rewrite try_from_iter_unfold by exact Hlast. rewrite <- Heq.
+  unfold sb_multiset. rewrite Hgp. cbn [bind]. rewrite Hiv. cbn [unwrap_iv bind]. rewrite Hraw. cbn [bind].
+  destruct (try_all_total (lst + 1) _ 0 Vs Hlast Hw ltac:(lia) Hfit Vs 0 _ Hinv) as [r [Hr Hres]];
+    [split; intros; lia|lia|intros i Hi; f_equal; lia|].
+  rewrite Hr. cbn [bind]. destruct r as [b'|e]; [|exists e; reflexivity].
+  (* accepted: then the list was sorted after all *)
+  exfalso. destruct Hres as [_ [_ Hord]].
+  assert (Hs : sorted_le Vs).
+  { intros i j Hij Hj. remember (N.to_nat (j - i)) as d eqn:Hd. revert j Hij Hj Hd.
+    induction d as [|d IH]; intros j Hij Hj Hd.
+    - replace j with i by lia. lia.
+    - specialize (IH (j - 1) ltac:(lia) ltac:(lia) ltac:(lia)). specialize (Hord j ltac:(lia) Hj). lia. }
+  rewrite (sorted_nondecreasing Vs Hs) in Hnd. discriminate.
+Qed.
+
 End Top.
